@@ -331,7 +331,7 @@ def guard(t, pid, case, fn, *args, **kw):
         t.c["cases_skipped_after_timeouts"] += 1
         return None
     try:
-        with time_limit(kw.pop("_limit", 180)):
+        with time_limit(kw.pop("_limit", 900)):
             return fn(*args, **kw)
     except HarnessError:
         raise
